@@ -107,6 +107,14 @@ CHECKS['C11'] = dict(
     note='Whole-kilometre fibre lengths (exact ties); undefined LOOSE/STRICT mixes not judged; one listed known '
          'finding (explicit route ignores order inside an OMS).', ref='3/C11')
 
+CHECKS['C12'] = dict(
+    technique='runtime monitor: returned routes per synchronisation group checked for shared unordered ROADM links; '
+              'brute-force existence oracle over all simple routes for single pairs; raised errors cross-checked',
+    text='Every group of every generated batch is judged for link-disjointness in both directions; for single pairs '
+         'the code must return a disjoint STRICT-respecting pair iff the exhaustive search finds one. Exploration.',
+    note='No parallel links; completeness only for single pairs; one listed known finding (STRICT include inside an '
+         'OMS for grouped requests).', ref='3/C12')
+
 NOT_APPLICABLE = {
 }
 
